@@ -359,6 +359,7 @@ type harness struct {
 	pfx     string
 	nlayout int
 	layoutN int
+	nbuf    int
 }
 
 func (h *harness) id(kind string) string {
@@ -449,6 +450,46 @@ func (h *harness) layout(text []byte, want string, what string) {
 	}
 }
 
+// isAtoms: a flat sequence of non-composite values without references.
+func isAtoms(xs []pdf.Object) bool {
+	for _, x := range xs {
+		switch x.(type) {
+		case nil, pdf.Boolean, pdf.Integer, pdf.Real, pdf.Name, pdf.String:
+		default:
+			return false
+		}
+	}
+	return true
+}
+
+// buffered: the model's readers over the model of the buffered source (BufSrc.v, Readers.v:
+// PeekN/advance/ScanBytes over buf, pos, used with refill and compaction, scannerBufSize bytes)
+// must give what the real scanner gives on the same bytes.  The text (a flat sequence of
+// atoms) is placed so that byte j of it is the first byte after a buffer boundary; the model's
+// reader receives the bytes in chunks of the given sizes.
+func (h *harness) buffered(text []byte, sizes string) {
+	const buf = 1024
+	n := len(text)
+	if n == 0 || n > 600 {
+		return
+	}
+	for j := 0; j <= n; j++ {
+		if h.nbuf >= h.e.Pick(700, 6000) {
+			return
+		}
+		b := buf
+		if j%5 == 4 {
+			b = 2 * buf
+		}
+		padded := append(bytes.Repeat([]byte{' '}, b-j), text...)
+		id := h.id("B")
+		h.nbuf++
+		h.e.Evaluations++
+		h.e.Line("cases.txt", "%s B 0 %s %s", id, sizes, hx(padded))
+		h.e.Line("impl.obs", "%s %s", id, realScan(padded))
+	}
+}
+
 // objects: one case of object values: oracle, (a) and (b).
 func (h *harness) objects(xs []pdf.Object, class string, nontrivial bool) {
 	h.oracle(xs, class)
@@ -482,6 +523,9 @@ func (h *harness) objects(xs []pdf.Object, class string, nontrivial bool) {
 			h.layoutN++
 			if h.layoutN%h.e.Pick(6, 3) == 0 {
 				h.layout(text, want, class)
+				if isAtoms(xs) && len(text) <= 40 && h.layoutN%5 == 0 {
+					h.buffered(text, []string{"1024", "1", "7,300,1", "1000,1000", "3"}[h.layoutN%4])
+				}
 			}
 		}
 		// (b) model formatter -> real scanner; standard limits only
@@ -489,6 +533,12 @@ func (h *harness) objects(xs []pdf.Object, class string, nontrivial bool) {
 			id := h.id("b")
 			h.e.Line("cases_b.txt", "%s F %d %s", id, p, rawList(xs))
 			h.e.Line("want_b.obs", "%s %s", id, want)
+			if len(text)%3 == 0 {
+				// the model formatter under a full option mask (Format.format_opt)
+				id := h.id("b")
+				h.e.Line("cases_b.txt", "%s FO %d %s", id, (h.n*7)%32, rawList(xs))
+				h.e.Line("want_b.obs", "%s %s", id, want)
+			}
 		}
 	}
 	h.e.Sample(4, map[string]any{"kind": class, "values": rawList(xs)})
@@ -818,6 +868,26 @@ func phase1() {
 		h.parseBytes([]byte(t))
 	}
 
+	// 0b. tokens whose look-ahead windows (PeekN(3) of tryHex, PeekN(1) of the octal escapes,
+	// PeekN(5) of ReadObject, the ScanBytes loops) straddle the end of the scanner's buffer:
+	// real scanner vs the model's readers over the model of the buffered source
+	h.pfx = "B"
+	for i, t := range []string{
+		"/A#42C/D#4 /#/#4G#",
+		"/Name#20with#2Fescapes#",
+		"(a\\101\\7b\\\r\nc\\(\\)) (x\ry\r\nz\\)",
+		"(oct\\1\\12\\123\\1234\\8\\400)(\\n\\r\\t\\b\\f\\\n\\z)",
+		"<48 65 6C6c6f7> <> <4>",
+		"-12.50 +7 .5 123456789012 1. 99999999999999999999 -.0",
+		"% comment\r/N %c\n 12%x\r\n(s)",
+		"true false null/T(()) 5 truefalse nullnull",
+		"/A#4",
+		"(a\\1",
+		"12.",
+	} {
+		h.buffered([]byte(t), []string{"1024", "1", "7,300,1", "1000,1000", "3"}[i%5])
+	}
+
 	// 1. all strings and names of length <= 3 (thorough: 4) over the delimiter alphabet
 	maxLen := e.Pick(3, 4)
 	var all [][]byte
@@ -890,6 +960,20 @@ func phase1() {
 		}
 		d["Type"] = pdf.Name("T")
 		h.objects([]pdf.Object{d, a}, "sizes", true)
+	}
+
+	// 1b. names and strings with a literal '#' followed by hex digits of either case (what the
+	// reader would take for an escape if the writer did not escape the '#')
+	h.pfx = "h"
+	{
+		const hexd = "0123456789abcdefABCDEFgG"
+		for i := 0; i < len(hexd); i++ {
+			for j := 0; j < len(hexd); j++ {
+				n := "#" + string(hexd[i]) + string(hexd[j])
+				h.objects([]pdf.Object{pdf.Name(n), pdf.Name("C" + n + "x"), pdf.Dict{pdf.Name(n): pdf.Name(n + n)}}, "hash-hex-name", (i+j)%8 == 0)
+			}
+			h.objects([]pdf.Object{pdf.Name("#" + string(hexd[i])), pdf.Name("##" + string(hexd[i]) + "#")}, "hash-hex-name", false)
+		}
 	}
 
 	// 2. all ordered pairs of token kinds x 3 representatives, in four contexts
